@@ -7,7 +7,7 @@ META = {
     "level": "model_checking",
     "technique": "byte-level TLA+ transcription of the Solidity ABI encoding (ABI.tla: Enc, pointer-following Dec, verdict); TLC checks round-trip/canonical-form laws on nested types and mutated encodings and prints every case for replay on abi.Arguments Pack/Unpack; recorded random Pack/Unpack calls validated by ABITrace.tla",
     "text": "ABI.tla defines the head/tail layout (offsets relative to the enclosing tuple/array, length prefixes, left/right padding, sign extension) and the decoder any implementation must realise on arbitrary bytes: reject exactly when a needed byte is outside the input or a leaf is out of range, accept canonical encodings (plus trailing bytes) with exactly their value, and - if it is lenient about dirty padding or odd offsets - accept only the pointer-following value. TLC explores all types of nesting depth <= 2 (<= 3 components) over the base types with three sample values each, every single-word replacement from a 14-value alphabet at every position of their encodings, truncations/extensions, and all short word strings for ten argument lists; it checks Dec(Enc(v)) = v, canonical re-encoding and truncation laws on the model and prints every case. The driver builds the real abi.Type by abi.NewType and Go values by reflection, demands Pack = specification bytes, Unpack verdict/value = specification, no panic (recovered and reported), and that whatever Unpack accepts re-encodes and decodes to the same value. Random types of depth <= 4 with random values and mutated encodings are recorded and validated event by event.",
-    "note": "fixed-point and function types are outside; values of uintN/intN are assumed in range when packing; two leniencies of the decoder are recognised by exact fingerprint and admitted until their repairs land in /repo (C51-F1 offset of T[k] with dynamic T truncated to 64 bits, C51-F2 no range check for integer widths other than 8/16/32/64/256); see spec/codec/NOTES.md. Trusts TLC and the value conversion by reflection in harness/cmd/c51.",
+    "note": "fixed-point and function types are outside; values of uintN/intN are assumed in range when packing; two defects found by this check are fixed in /repo (C51-F1 offset of T[k] with dynamic T truncated to 64 bits, C51-F2 no range check for integer widths other than 8/16/32/64/256; see spec/codec/NOTES.md) and their reverse patches are kept as mutations. Trusts TLC and the value conversion by reflection in harness/cmd/c51.",
     "design_ref": "3.1 C51",
 }
 
@@ -21,22 +21,14 @@ def run(ctx):
         raise InfraError("TLC emitted only %d cases" % len(cases))
     cp = os.path.join(ctx.scratch, "cases.json")
     write_json(cp, cases)
-    # Recognised deviations C51-F1/F2 (exact fingerprints) are being repaired in /repo; until the repairs land
-    # they are admitted, except in a strict run (VERIF_STRICT=C51-F1,C51-F2: used to validate the repairs).
-    strict = [x for x in os.environ.get("VERIF_STRICT", "").split(",") if x.startswith("C51-")]
-    s, _ = ctx.drive(drv, ["-mode", "cases", "-in", cp, "-strict", ",".join(strict)], timeout=3600, name="c51-cases")
-    pend = (s.get("extra") or {}).get("pending") or {}
+    ctx.drive(drv, ["-mode", "cases", "-in", cp], timeout=3600, name="c51-cases")
     tp = os.path.join(ctx.scratch, "trace.ndjson")
     s2, _ = ctx.drive(drv, ["-mode", "record", "-trace", tp, "-n", ctx.pick(120, 2500)], timeout=3600, name="c51-record")
-    ok, consumed, total, r = ctx.validate("codec/ABITrace", tp, ntraces=1, timeout=7200, env={"ADMIT_F1": "0" if "C51-F1" in strict else "1"})
+    ok, consumed, total, r = ctx.validate("codec/ABITrace", tp, ntraces=1, timeout=7200)
     if not ok:
         ctx.reject_trace("codec/ABITrace", tp, consumed, r)
-    for k in sorted(pend):
-        line = "PENDING-FIX property=C51 %s: %d case(s), e.g. %s (repair prepared: spec/codec/mutations/%s-candidate-fix.diff)" % (k, pend[k]["count"], pend[k]["desc"][:200], k)
-        print(line); ctx.notes.append(line)
-    ctx.cov["recognised_deviations"] = {k: v["count"] for k, v in pend.items()}
     return ctx.finish(
         rule="MC: laws on every case; R: every case (types x sample values, single-word mutations, cuts, word strings) on abi.Arguments; V: random nested types/values and mutated encodings, one event per Pack/Unpack",
         assumptions=["numbers in offset/length positions are exact below 2^24 and 'huge' above (inputs are far smaller)",
                      "values handed to Pack are in the range of their type",
-                     "recognised deviations C51-F1/F2 admitted by exact fingerprint until repaired"])
+                     ])
